@@ -288,10 +288,18 @@ pub fn scaling_input(kind: usize, n: usize) -> String {
         13 => format!("x := a{};", rep(".b", n)),
         14 => rep("{$ifdef A} begin {$else} end; {$endif}\n", n),
         15 => format!("{}x;{}", rep("{$ifdef A} {$ifdef B} x; {$else} ", n), rep(" {$endif} {$endif}", n)),
+        // the same nests after a long file of small child-bearing statements (state that the
+        // formatter keeps per file - caches, maps, counters - is then far from empty); the cost of
+        // the prefix alone (n = 0) is subtracted by the oracle
+        16 => format!("{}{}x;{}", rep("if a then begin b; end;\n", 5000), rep("if a then begin ", n), rep(" end;", n)),
+        17 => format!("{}{}x;{}", rep("while a do b;\ncase c of 1: d; end;\n", 2500), rep("case x of 1: begin ", n), rep(" end; end;", n)),
+        18 => format!("{}x := {}a{};", rep("f(a, b);\nx := procedure begin a; end;\n", 2500), rep("f(", n), rep(")", n)),
         _ => unreachable!(),
     }
 }
-pub const SCALING_KINDS: usize = 16;
+pub const SCALING_KINDS: usize = 19;
+/// kinds whose input starts with a long fixed prefix
+pub const SCALING_PREFIXED: usize = 16;
 
 /// a handful of large inputs (sizes beyond every u8 / u16 counter of the pipeline)
 pub fn large_inputs() -> Vec<String> {
